@@ -79,6 +79,8 @@ fn gamma(a: f64) -> f64 {
 }
 
 pub fn eval(expr: Node) -> Result<f64, Box<dyn error::Error>> {
+    #[cfg(feature = "verif_hooks")]
+    crate::verif_hooks::tick(2);
     use self::Node::*;
     match expr {
         Number(i) => Ok(i),
@@ -98,6 +100,8 @@ pub fn eval(expr: Node) -> Result<f64, Box<dyn error::Error>> {
                 } else {
                     let mut factorial_result = 1.0;
                     for i in 2..=(sub_result as usize) {
+                        #[cfg(feature = "verif_hooks")]
+                        crate::verif_hooks::tick(3);
                         factorial_result *= i as f64;
                     }
                     Ok(factorial_result)
@@ -117,6 +121,8 @@ pub fn eval(expr: Node) -> Result<f64, Box<dyn error::Error>> {
             let iterations = (4).max((sub_expr.log10() / 3.0).ceil() as i32);
             let mut w: f64 = 0.0;
             for _ in 0..iterations {
+                #[cfg(feature = "verif_hooks")]
+                crate::verif_hooks::tick(3);
                 let exp_w = w.exp();
                 w -= (w * exp_w - sub_expr)
                     / (exp_w * (w + 1.0) - (w + 2.0) * (w * exp_w - sub_expr) / (2.0 * w + 2.0));
@@ -128,6 +134,8 @@ pub fn eval(expr: Node) -> Result<f64, Box<dyn error::Error>> {
             let b = eval(*expr2)?;
             let mut x: f64 = 0.0;
             while n > 1.0 {
+                #[cfg(feature = "verif_hooks")]
+                crate::verif_hooks::tick(3);
                 x += 1.0;
                 n = (n.log10() / b.log10()).floor();
             }
